@@ -17,6 +17,12 @@ CLAIMED = {
             "symbolic execution of the real update/reset of 14 detectors with z3: one inductive step from an arbitrary "
             "state (DDM, EDDM, STEPD, PageHinkley; unbounded parameters) and bounded histories with free numeric decisions "
             "(CUSUM, ADWIN, ADWINAccuracy, LFR, kdq-tree x2, HDDDM, CDBD, NNDVI, PCACD)"),
+    "C05": ("DESIGN.md 7/C05",
+            "the executable specification (specs/label_detectors.py) takes the running-deviation recurrence from the tree; "
+            "B mode uses the real doubles and real scipy; S mode uses exact reals and an uninterpreted monotone Phi",
+            "symbolic execution of the real DDM/EDDM/STEPD.update with z3 against an executable specification: all outcome "
+            "sequences up to N with universally quantified thresholds and arbitrary integer labels (exact floats per path), "
+            "plus one inductive step from an arbitrary state in real arithmetic"),
     "C13": ("DESIGN.md 7/C13",
             "members modelled as objects exposing drift_state; parameters on their documented domains; z3 LIA; CPython",
             "symbolic execution of election.py with z3: all vote patterns for n<=5/6 members with unbounded integer "
